@@ -172,6 +172,8 @@ def c04(ctx):
     quick = ctx.tier == 'quick'
     runs = [{'module': 'MC_C04', 'cfg': 'MC_C04_quick.cfg', 'workers': 8}] if quick else \
            [{'module': 'MC_C04', 'cfg': 'MC_C04_thorough.cfg', 'workers': 12, 'timeout': 3000, 'heap': '16g'}]
+    # discriminants only a 64-bit unsigned type holds, and ordering educed next to Copy (configurations only)
+    runs.append({'module': 'MC_C04', 'cfg': 'MC_C04_big.cfg', 'workers': 8, 'timeout': 1800})
 
     def calls(r):
         if 'Ord' in r.traits:
@@ -461,7 +463,7 @@ def model_check_tagged(ctx, runs, tag):
         transitions += res['stats'].get('generated', 0)
         for k, v in res['coverage'].items():
             cover[k] = cover.get(k, 0) + v
-        out += res['tagged'][tag]
+        out += sorted(res['tagged'][tag], key=lambda x: json.dumps(x, sort_keys=True))      # (canonical order, as in rpipe.model_check)
         mc_runs.append({'module': r['module'], 'cfg': r['cfg'], 'simulate': sim, 'stats': res['stats'], 'emitted': len(res['tagged'][tag])})
     ctx.coverage['states'] = states
     ctx.coverage['transitions'] = transitions
@@ -634,13 +636,19 @@ def render_c16_input(inp, k):
     if k % 2 == 1:
         metas = list(reversed(metas))
     attr = '#[educe(%s)]' % ', '.join(metas)
-    fields = 'a: u8, b: u16, c: u32, d: u64'
+    mark = []
+    if 'Deref' in others:
+        mark.append('Deref')
+    if 'DerefMut' in others:
+        mark.append('DerefMut')
+    fields = '%sa: u8, b: u16, c: u32, d: u64' % ('#[educe(%s)] ' % ', '.join(mark) if mark else '')
+    dv = '#[educe(Default)] ' if 'Default' in others else ''
     if inp['kind'] == 'struct':
         return '%s struct T { %s }' % (attr, fields)
     if 'PartialOrd' in others or 'Ord' in others:
         # the ordering impls mention the discriminant integer type: the two widths of the model
-        return '%s enum T { V1 { %s } = 1, V2(u8, u16, u32, u64) = %d }' % (attr, fields, 2 if inp.get('width', 8) == 8 else 1000)
-    return '%s enum T { V1 { %s }, V2(u8, u16, u32, u64) }' % (attr, fields)
+        return '%s enum T { %sV1 { %s } = 1, V2(%su8, u16, u32, u64) = %d }' % (attr, dv, fields, '#[educe(%s)] ' % ', '.join(mark) if mark else '', 2 if inp.get('width', 8) == 8 else 1000)
+    return '%s enum T { %sV1 { %s }, V2(%su8, u16, u32, u64) }' % (attr, dv, fields, '#[educe(%s)] ' % ', '.join(mark) if mark else '')
 
 
 def c16(ctx):
@@ -1379,8 +1387,10 @@ class GenericRender(TypeRender):
         hdr = 'impl<T, U>'
         if 'Copy' in self.traits and 'Clone' not in self.traits:
             out.append('%s ::core::clone::Clone for %s<T, U> { fn clone(&self) -> Self { unimplemented!() } }' % (hdr, n))
-        if 'Eq' in self.traits and 'PartialEq' not in self.traits:
+        if ('Eq' in self.traits or 'Ord' in self.traits) and 'PartialEq' not in self.traits:
             out.append('%s ::core::cmp::PartialEq for %s<T, U> { fn eq(&self, _: &Self) -> bool { true } }' % (hdr, n))
+        if 'Ord' in self.traits and 'Eq' not in self.traits:
+            out.append('%s ::core::cmp::Eq for %s<T, U> {}' % (hdr, n))
         if 'Ord' in self.traits and 'PartialOrd' not in self.traits:
             out.append('%s ::core::cmp::PartialOrd for %s<T, U> where Self: ::core::cmp::PartialEq { fn partial_cmp(&self, _: &Self) -> Option<::core::cmp::Ordering> { None } }' % (hdr, n))
         return ' '.join(out)
@@ -1556,6 +1566,9 @@ class CompileBoundsRender(BoundsRender):
 
 
 SPECIAL_SHAPES = [
+    # all twelve traits on one item
+    '#[educe(Debug, Clone, Copy, PartialEq, Eq, PartialOrd, Ord, Hash, Default, Deref, DerefMut, Into(u16))] struct {N} {{ #[educe(Deref, DerefMut)] a: u8, b: u16 }}',
+    '#[educe(Debug, Clone, Copy, PartialEq, Eq, PartialOrd, Ord, Hash, Default, Deref, DerefMut, Into(u16))] enum {N} {{ #[educe(Default)] V1 {{ #[educe(Deref, DerefMut)] a: u8, b: u16 }}, V2(#[educe(Deref, DerefMut)] u8, u16) }}',
     # shapes the grammars above do not reach: empty / single-variant enums, unit structs, raw identifiers, reprs, where-clauses
     '#[educe(Clone, PartialEq, Eq, PartialOrd, Ord, Hash)] enum {N} {{}}',
     '#[educe(Debug(name = true), Clone, Copy, PartialEq, Eq, PartialOrd, Ord, Hash)] enum {N} {{}}',
@@ -1640,6 +1653,7 @@ def c01(ctx):
     n_typed = 0
     typed_of = {}
     import re as _re
+    typed = sorted(typed, key=lambda r: r['ty'])      # (TLC's workers print in no fixed order)
     for k, rec in enumerate(typed):
         ty = rec['ty']
         traits = [t for t in ('Debug', 'Clone', 'Copy', 'PartialEq', 'Eq', 'PartialOrd', 'Ord', 'Hash', 'Default') if rec['sup'].get(t)]
